@@ -6,9 +6,10 @@ package tractserver
 // crashed; restarts with any subset of the disks attached in any order; live AddDisk / RemoveDisk;
 // SetVersion bumps.  Model: the sequential Store model of coq/theories/Store (AddDisk =
 // resolveConflicts) replayed by C04's run_case (cases whose first line is 70).
-// Monitor (model-free): whenever the disk that holds the newest ACKNOWLEDGED copy of a tract is
-// attached, a read at the client's version either returns the acknowledged bytes or fails closed, and
-// a replica that is not served is reported missing by Check (so the curator re-replicates it).
+// Monitor (model-free): while the newest ACKNOWLEDGED copy of a tract exists on an attached disk
+// (including the very step that removes it), a read at the client's version either returns the
+// acknowledged bytes or fails closed, and a replica that is not served is reported missing by Check
+// (so the curator re-replicates it).
 
 import (
 	"context"
@@ -47,6 +48,11 @@ type c04Tract struct {
 	attempts []c04Attempt
 	ver      int // the version the client uses (the one its last acknowledged request carried)
 	home     int // disk holding the newest acknowledged copy, -1 = none acknowledged yet
+	// lost: the acknowledged copy no longer exists on this server (an equal-version conflict with an
+	// unacknowledged twin dropped both copies, fail closed).  From then on the server cannot tell a further
+	// same-version stale copy from the real thing (observation O1); the replica is the curator's to repair
+	// from another server, and the client is outside the premise.
+	lost bool
 }
 
 type c04DiskWorld struct {
@@ -136,6 +142,15 @@ func (w *c04DiskWorld) removeDisk(di int) {
 	}
 	w.line([]int64{76, int64(di)}, []int64{code})
 	w.monitor(fmt.Sprintf("remove-disk%d", di))
+}
+
+// hasFile looks at the platter: does disk di hold a file for the tract?
+func (w *c04DiskWorld) hasFile(di int, id core.TractID) bool {
+	m := w.disks[di].MemDisk
+	m.lock.Lock()
+	defer m.lock.Unlock()
+	_, ok := m.fds[id]
+	return ok
 }
 
 func (w *c04DiskWorld) slotOf(di int) int {
@@ -265,8 +280,13 @@ func (w *c04DiskWorld) bad(sig, what string, det map[string]interface{}) {
 // monitor: after every step, for every tract with an acknowledged copy whose disk is attached
 func (w *c04DiskWorld) monitor(after string) {
 	for ti, t := range w.tracts {
-		if t.home < 0 || !w.attached(t.home) {
+		if t.home < 0 || t.lost || !w.attached(t.home) {
 			continue
+		}
+		// The step in which the acknowledged copy disappears is still judged (it must fail closed); afterwards
+		// the premise "the acknowledged copy is on an attached disk" is gone.
+		if !w.hasFile(t.home, t.id) {
+			defer func(t *c04Tract) { t.lost = true }(t)
 		}
 		n := w.extent(t)
 		if n == 0 {
@@ -391,7 +411,7 @@ func c04DiskRandom(root *vw.Rng, tr *vw.Trace, ci int) {
 		t := w.tracts[ti]
 		// the client talks to this replica only while the server serves the copy that holds everything it
 		// acknowledged (with that disk absent the server cannot know that it serves a stale copy)
-		cli := t.home < 0 || (w.attached(t.home) && w.servedOn(t) == t.home)
+		cli := !t.lost && (t.home < 0 || (w.attached(t.home) && w.servedOn(t) == t.home))
 		x := r.Intn(100)
 		if x < 55 && !cli {
 			x = 55 + r.Intn(45)
